@@ -91,7 +91,7 @@ class Schema2Base:
         # This assumes .all_entries is sorted in a reasonable way for output.
         level_adj = 0
         all_nodes = {}  # List of all nodes we've written out.
-        for tag_entry in tags.all_entries:
+        for tag_entry in self._in_tree_order(tags.all_entries):
             if self._should_skip(tag_entry):
                 continue
             tag = tag_entry.name
@@ -115,6 +115,27 @@ class Schema2Base:
                 all_nodes[tag_entry.name] = child_node
 
         self._end_tag_section()
+
+    @staticmethod
+    def _in_tree_order(tag_entries):
+        """ Return the tag entries with every tag directly followed by its subtree, keeping the order among siblings.
+
+            The mediawiki writer encodes the hierarchy by line order, but library tags are stored after the tags of the
+            partnered standard schema, so a rooted library tag can be listed long after its parent.
+        """
+        children = {}
+        for tag_entry in tag_entries:
+            children.setdefault(id(tag_entry.parent), []).append(tag_entry)
+
+        ordered = []
+
+        def add_subtrees(parent):
+            for tag_entry in children.get(id(parent), []):
+                ordered.append(tag_entry)
+                add_subtrees(tag_entry)
+
+        add_subtrees(None)
+        return ordered
 
     def _output_units(self, unit_classes):
         section_node = self._start_section(HedSectionKey.UnitClasses)
